@@ -458,9 +458,11 @@ func (e *env) project(ctx sdk.Context) any {
 	iter(servicetypes.RequestKey, func(key, val []byte) {
 		var r servicetypes.CompactRequest
 		cdc.MustUnmarshal(val, &r)
+		_, _, _, idx, _ := servicetypes.SplitRequestID(key)
 		reqs[e.reqNameOf(key)] = chain.M{
 			"ctx": e.ctxNameOf(r.RequestContextId), "batch": int64(r.RequestContextBatchCounter),
 			"provider": e.nameOf(r.Provider), "fee": coinsAmt(r.ServiceFee), "reqH": r.RequestHeight, "expH": r.ExpirationHeight,
+			"idx": int64(idx),
 		}
 	})
 	active := []any{}
